@@ -177,16 +177,22 @@ def ElemEdit.startRegion (enc : Enc) (chc : Bool) (e : ElemEdit) (startOwn : Byt
     ++ (if e.startDropped then encodeDyn enc e.startRepl else startOwn)
     ++ encodeDyn enc (if chc then e.prepend else e.after)
 
+/-- `set_tag_name` renames the end tag too. -/
+def renameOps : Option Bytes → List EndTagOp
+  | some n => [.setName n]
+  | none => []
+
+/-- `remove` / `replace` / `remove_and_keep_content` remove the end tag. -/
+def removeOps (b : Bool) : List EndTagOp := if b then [.mut .remove] else []
+
 /-- The end region expressed as a script of public end-tag calls on the element's end tag:
 rename, the appended content before, the `after` content after, removal, then the user's
 `on_end_tag` handlers. -/
 def ElemEdit.endTagScript (e : ElemEdit) : List EndTagOp :=
-  (match e.endName with
-   | some n => [EndTagOp.setName n]
-   | none => [])
+  renameOps e.endName
     ++ e.append.map (fun c => EndTagOp.mut (.before c))
     ++ e.after.reverse.map (fun c => EndTagOp.mut (.after c))
-    ++ (if e.endDropped then [EndTagOp.mut .remove] else [])
+    ++ removeOps e.endDropped
     ++ e.endHandlers.flatten
 
 end LolHtml.Spec.Edit
